@@ -1,7 +1,8 @@
 import WfProofs.EngineRecovery
 import WfProofs.RunnerTerminal
-/-! Recovery budgets on the runner LTS (C08): the invariant of `EngineRecovery` extends to the
-tick buffer, the mailbox and the timer heap, for every schedule. -/
+/-! Recovery budgets on the runner LTS (C08): the invariant of `EngineRecovery` (queued and
+in-progress invocations and — since the repair of the wait replay — the counts kept in waiters)
+extends to the tick buffer, the mailbox and the timer heap, for every schedule. -/
 set_option linter.unusedSimpArgs false
 set_option linter.unusedVariables false
 
@@ -131,5 +132,92 @@ theorem run_rc (cfg : Cfg) (pol : Policy) : ∀ (acts : List Act) (r : Runner), 
   | a :: as, r, ha, h => by
     simp only [Runner.run, List.foldl_cons]
     exact run_rc cfg pol as _ (fun x hx => ha x (by simp [hx])) (step_rc cfg pol r a (ha a (by simp)) h)
+
+/-! ### the start of a run (fresh or resumed) -/
+
+private theorem mem_insertWaiter' {x y : Waiter} : ∀ {l : List Waiter}, x ∈ insertWaiter y l → x = y ∨ x ∈ l
+  | [], h => by simp [insertWaiter] at h; exact Or.inl h
+  | u :: us, h => by
+    simp only [insertWaiter] at h
+    split at h
+    · rcases List.mem_cons.mp h with h | h
+      · exact Or.inl h
+      · exact Or.inr h
+    · rcases List.mem_cons.mp h with h | h
+      · exact Or.inr (by simp [h])
+      · rcases mem_insertWaiter' h with h | h
+        · exact Or.inl h
+        · exact Or.inr (List.mem_cons_of_mem _ h)
+
+private theorem mem_foldr_insertWaiter' {x : Waiter} : ∀ {l : List Waiter}, x ∈ l.foldr insertWaiter [] → x ∈ l
+  | [], h => by simp at h
+  | u :: us, h => by
+    simp only [List.foldr_cons] at h
+    rcases mem_insertWaiter' h with h | h
+    · simp [h]
+    · exact List.mem_cons_of_mem _ (mem_foldr_insertWaiter' h)
+
+/-- every rehydration tick is the replay of a waiter of the state, addressed to the waiter's step -/
+theorem mem_rehydrateTicks {cfg : Cfg} {st : State} {t : Tick} (h : t ∈ rehydrateTicks cfg st) :
+    ∃ c ∈ sortedSteps cfg, ∃ w ∈ (st.workers c.name).waiters, t = .addEvent w.replay (some c.name) := by
+  simp only [rehydrateTicks, List.mem_flatMap, List.mem_map] at h
+  obtain ⟨c, hc, w, hw, rfl⟩ := h
+  exact ⟨c, hc, w, mem_foldr_insertWaiter' (List.mem_filter.mp hw).1, rfl⟩
+
+theorem rewindLoop_rcInv (cfg : Cfg) (now : Int) : ∀ (cs : List StepCfg) (st : State) (cmds : List Cmd),
+    RcInv cfg st → RcInv cfg (rewindLoop now cs st cmds).1
+  | [], st, cmds, h => by simpa [rewindLoop] using h
+  | d :: ds, st, cmds, h => by
+    unfold rewindLoop
+    apply rewindLoop_rcInv cfg now ds
+    apply RcInv.set h
+    unfold rewindStep
+    apply drain_rcSS
+    refine ⟨?_, by simp, (h d.name).2.2⟩
+    intro a ha
+    simp only [List.mem_append, List.mem_reverse, List.mem_map] at ha
+    rcases ha with ⟨ip, hip, rfl⟩ | ha
+    · exact (h d.name).2.1 ip hip
+    · exact (h d.name).1 a ha
+
+theorem rewindLoop_cmds_rc (cfg : Cfg) (now : Int) : ∀ (cs : List StepCfg) (st : State) (cmds : List Cmd),
+    (∀ c ∈ cmds, cmdRcOk cfg c) → ∀ c ∈ (rewindLoop now cs st cmds).2, cmdRcOk cfg c
+  | [], st, cmds, h => by simpa [rewindLoop] using h
+  | d :: ds, st, cmds, h => by
+    unfold rewindLoop
+    apply rewindLoop_cmds_rc cfg now ds
+    intro c hc
+    rcases List.mem_append.mp hc with hc | hc
+    · exact h c hc
+    · unfold rewindStep at hc; exact drain_cmds_rc cfg _ _ _ _ _ c hc
+
+/-- `Runner.init` on any state within budget — a fresh one, or one loaded from a serialised
+context — is within budget: `rewind_in_progress` re-queues in-progress invocations with their
+counts, and the rehydration ticks carry the counts kept in the waiters -/
+theorem init_rc (cfg : Cfg) (st0 : State) (h0 : RcInv cfg st0) (now : Int) (start : Option Ev) (timeout : Option Nat) :
+    RunnerRc cfg (Runner.init cfg st0 now start timeout) := by
+  unfold Runner.init
+  dsimp only
+  have hrw : ∀ c ∈ (rewind cfg st0 now).2, cmdRcOk cfg c := by
+    unfold rewind; exact rewindLoop_cmds_rc cfg now _ _ _ (by simp)
+  have hst : RcInv cfg (rewind cfg st0 now).1 := by
+    unfold rewind; exact rewindLoop_rcInv cfg now _ _ _ h0
+  apply execCmds_rc cfg _ _ hrw
+  have hbuf : ∀ t ∈ rehydrateTicks cfg st0 ++
+      (match start with | some e => [Tick.addEvent { ev := e } none] | none => []), tickRcOk cfg t := by
+    intro t ht
+    rcases List.mem_append.mp ht with ht | ht
+    · obtain ⟨c, _, w, hw, rfl⟩ := mem_rehydrateTicks ht
+      exact (h0 c.name).2.2 w hw
+    · cases start with
+      | none => simp at ht
+      | some e => simp only [List.mem_singleton] at ht; subst ht; exact rcOk_nil cfg
+  cases timeout with
+  | none => exact ⟨hst, hbuf, by intro t ht; simp at ht, by intro t ht; simp at ht⟩
+  | some tmo =>
+    refine ⟨hst, hbuf, by intro t ht; simp [Runner.push] at ht, ?_⟩
+    intro t ht
+    simp only [Runner.push, List.nil_append, List.mem_singleton] at ht
+    subst ht; trivial
 
 end Engine
